@@ -219,7 +219,9 @@ func HTMLAssets(item *models.Item) (assets []*models.URL, err error) {
 			if exists {
 				links := strings.Split(link, ",")
 				for _, link := range links {
-					rawAssets = append(rawAssets, strings.Split(strings.TrimSpace(link), " ")[0])
+					if fields := strings.Fields(link); len(fields) > 0 {
+						rawAssets = append(rawAssets, fields[0])
+					}
 				}
 			}
 
@@ -227,7 +229,9 @@ func HTMLAssets(item *models.Item) (assets []*models.URL, err error) {
 			if exists {
 				links := strings.Split(link, ",")
 				for _, link := range links {
-					rawAssets = append(rawAssets, strings.Split(strings.TrimSpace(link), " ")[0])
+					if fields := strings.Fields(link); len(fields) > 0 {
+						rawAssets = append(rawAssets, fields[0])
+					}
 				}
 			}
 		})
@@ -358,7 +362,9 @@ func HTMLAssets(item *models.Item) (assets []*models.URL, err error) {
 			if exists {
 				links := strings.Split(link, ",")
 				for _, link := range links {
-					rawAssets = append(rawAssets, strings.Split(strings.TrimSpace(link), " ")[0])
+					if fields := strings.Fields(link); len(fields) > 0 {
+						rawAssets = append(rawAssets, fields[0])
+					}
 				}
 			}
 
@@ -366,7 +372,9 @@ func HTMLAssets(item *models.Item) (assets []*models.URL, err error) {
 			if exists {
 				links := strings.Split(link, ",")
 				for _, link := range links {
-					rawAssets = append(rawAssets, strings.Split(strings.TrimSpace(link), " ")[0])
+					if fields := strings.Fields(link); len(fields) > 0 {
+						rawAssets = append(rawAssets, fields[0])
+					}
 				}
 			}
 		})
